@@ -52,8 +52,10 @@ class ComputeTypeVisitor(Visitor.DefaultVisitor):
 
         scope = ctx[-1]
         fields = OrderedDict()
+        # Field names live in the structure, not in the enclosing scope
+        fieldScope = types.Scope(scope)
         for field in decl.GetFields():
-            self.v_Visit(field, ctx)
+            self.v_Visit(field, ctx + [fieldScope])
             fields[field.GetName()] = field.GetType()
         structType = types.StructType(decl.GetName(), fields)
         scope.RegisterType(decl.GetName(), structType)
